@@ -427,7 +427,10 @@ def conversions(ctx):
         if isinstance(n, ast.If) and isinstance(n.test, ast.Compare) and astq.is_name(n.test.left, "sampsize") and isinstance(n.test.ops[0], ast.Eq):
             c = n.test.comparators[0]
             if isinstance(c, ast.Constant) and n.body and isinstance(n.body[0], ast.Assign) and astq.is_name(n.body[0].targets[0], "in_type"):
-                sizes[c.value] = prog.qualify(f.module, n.body[0].value, f)
+                v_ = n.body[0].value
+                if isinstance(v_, ast.Call) and (prog.qualify(f.module, v_.func, f) or "") == "numpy.dtype" and len(v_.args) == 1 and not v_.keywords:
+                    v_ = v_.args[0]    # np.dtype(np.uint8): the same type, as a dtype object
+                sizes[c.value] = prog.qualify(f.module, v_, f)
     ctx.check(sizes == {1: "numpy.uint8", 2: "numpy.int16", 4: "numpy.int32"}, R, f, f.node,
               "sample_n_bytes 1/2/4 are read as uint8/int16/int32", "sample size to input type table is %s" % sizes)
     # expansion iff target wider than a byte, table by coding
